@@ -51,7 +51,7 @@ DESCS = [None, "short text", "forty words " + " ".join("word%d" % i for i in ran
 
 @st.composite
 def tree_st(draw, max_depth=3, max_fanout=3, typed=False, descriptions=False, min_top=1, unique_names=False,
-            collide=False):
+            collide=False, lenient=False):
     used_as_option = set()
     longs = list(draw(st.permutations(LONGS)))
     shorts = list(draw(st.permutations(SHORTS)))
@@ -122,6 +122,8 @@ def tree_st(draw, max_depth=3, max_fanout=3, typed=False, descriptions=False, mi
                              "default": None, "desc": elem_desc()})
         cmd = {"name": name, "aliases": aliases, "kind": kind, "opts": opts, "args": args,
                "desc": (draw(st.sampled_from(DESCS)) if descriptions else "d"), "subs": subs}
+        if lenient and draw(st.integers(0, 3)) == 0:
+            cmd["lenient"] = True  # explicitly configured with enable_lenient_args_parsing()
         if descriptions and draw(st.integers(0, 3)) == 0:
             cmd["help"] = "Help of {command_name} in {script_name}.\nSecond paragraph with some more words to wrap around."
         return cmd
@@ -191,6 +193,8 @@ def build_command_config(cmd, handler_for, path):
         cc.hide()
     if k == "disabled":
         cc.disable()
+    if cmd.get("lenient"):
+        cc.enable_lenient_args_parsing()
     for o in cmd["opts"]:
         el = gen_args.build_element(o)
         cc.add_option(el.long_name, el.short_name, el.flags, o.get("desc"), o.get("default"))
